@@ -12,6 +12,7 @@ import (
 	"fmt"
 	"os"
 	"testing"
+	"time"
 
 	"verifharness/hx"
 	"verifharness/psx"
@@ -26,10 +27,12 @@ func handle(run *hx.Run, model *hx.Model, name string, r *psx.Runner) {
 		return
 	}
 	what := r.FailWhat
+	psx.GateTimeout = 500 * time.Millisecond
 	small := hx.Shrink(r.Script, 1, func(s []string) bool {
 		rr := psx.Replay(hx.NewRun("C03"), model, name+"/shrink", s)
 		return rr != nil && rr.FailWhat == what
 	})
+	psx.GateTimeout = 10 * time.Second
 	if len(small) < len(r.Script) {
 		psx.Replay(run, model, name+"/shrunk", small)
 	}
